@@ -152,6 +152,14 @@ RefusedNotForwarded(s, ev) ==
     (cfg.limit > 0 /\ Supported(s) /\ ev.rcode = 5 /\ Dec(LowerName(s.name)).kind = "forward") =>
         ~\E x \in upq : x[2] = LowerName(s.name)
 
+\* C09 at the listeners: a UDP response fits max(512, advertised size), any other at most 65535 octets;
+\* records are missing iff TC is set (the scripted upstream says how many answer records it sent)
+UdpLimit(s) == IF s.opt /\ s.optsize > 512 THEN s.optsize ELSE 512
+SizeOk(s, ev) == ev.size <= (IF ev.lst = "udp" THEN UdpLimit(s) ELSE 65535)
+UpAnswerCount(u) == IF u.rcode = 0 /\ ~u.nodata THEN Len(u.ttls) + u.ntxt ELSE 0
+TruncOk(s, ev) == (RespTok(ev) # 0 /\ RespTok(ev) \in DOMAIN upsent /\ ~upsent[RespTok(ev)].tc) =>
+                     (ev.tc = (ev.nan < UpAnswerCount(upsent[RespTok(ev)])))
+
 \* a client whose own subnet stays within its budget is never refused because of other subnets' traffic
 IsolationOk(s, ev) == (cfg.limit > 0 /\ Supported(s) /\ ~(Has(s, "mayrefuse") /\ s.mayrefuse) /\ Dec(LowerName(s.name)).kind = "forward")
                          => ev.rcode # 5
@@ -173,6 +181,8 @@ ClRecv == /\ IsEvent("cl.recv")
                                \cup (IF NoDisplaceOk(s, ev) THEN {} ELSE {"Inv_C08_NoDisplace"})
                                \cup (IF RefusedNotForwarded(s, ev) THEN {} ELSE {"Inv_C15_Refused"})
                                \cup (IF IsolationOk(s, ev) THEN {} ELSE {"Inv_C15_Isolation"})
+                               \cup (IF SizeOk(s, ev) THEN {} ELSE {"Inv_C09_ListenerLimit"})
+                               \cup (IF TruncOk(s, ev) THEN {} ELSE {"Inv_C09_TcIff"})
                                \cup (IF NoDelayOk(s, ev) THEN {} ELSE {"Inv_C19_NoDelay"})
                                \cup (IF RenewedOk(s, ev) THEN {} ELSE {"Inv_C19_Renewed"})))
              /\ answered' = answered \cup {ev.qn}
